@@ -59,7 +59,7 @@ def enc_key(k):
     return [4]
 
 
-def enc_pv(v):
+def enc_pv(v, parents=()):
     if v is None:
         return [0]
     if isinstance(v, bool):
@@ -70,13 +70,30 @@ def enc_pv(v):
         return [3, u8(v.hex())]
     if isinstance(v, str):
         return [4, u8(v)]
-    if isinstance(v, list):
-        return [5, [enc_pv(x) for x in v]]
-    if isinstance(v, tuple):
-        return [6, [enc_pv(x) for x in v]]
-    if isinstance(v, dict):
-        return [7, [[enc_key(k), enc_pv(x)] for k, x in v.items()]]
-    return [8]
+    if isinstance(v, (list, tuple, dict)):
+        if any(v is p for p in parents):
+            return [8, 1]                 # a container that contains itself: ValueError (circular reference)
+        ps = parents + (v,)
+        if isinstance(v, list):
+            return [5, [enc_pv(x, ps) for x in v]]
+        if isinstance(v, tuple):
+            return [6, [enc_pv(x, ps) for x in v]]
+        return [7, [[enc_key(k), enc_pv(x, ps)] for k, x in v.items()]]
+    return [8, 2]                         # set, bytes, ...: TypeError
+
+
+def _cyclic_values():
+    a = [1]
+    a.append(a)
+    b = {"k": 0}
+    b["self"] = b
+    c = [[], {"x": None}]
+    c[1]["up"] = c
+    d = [(1, 2)]
+    d.append(d)                           # the tuple is met first: TypeError from the strict check
+    e = [{1, 2}]
+    e.insert(0, e)                        # the cycle is met first
+    return [a, b, c, d, e]
 
 
 def dumps_or_none(v):
@@ -168,7 +185,7 @@ VALUES = [None, True, False, 0, 1, -1, 1.0, -0.0, 0.1, 2 ** 63, 2 ** 64 + 1, -(1
           {"a": {"b": [True, 1.5]}}, {"b": 1, "a": 2}, [1, 1.0, True], "null",
           # not JSON-safe
           (1, 2), [1, (2,)], {"a": (1,)}, {1: "x"}, {True: 1}, {None: 0}, {"1": "y", 1: "x"}, {(1, 2): 3}, {1, 2}, b"by",
-          [[]], [{}], {"": ""}, 1e-320, 10 ** 20, "true", [None], "None", "false", "0", 0.0, [0], [""], {"": None}, [False]]
+          [[]], [{}], {"": ""}, 1e-320, 10 ** 20, "true", [None], "None", "false", "0", 0.0, [0], [""], {"": None}, [False]] + _cyclic_values()
 PREFIXES = ["", "pre", "p:q", "p", "net", "p:q:r"]
 
 
@@ -226,6 +243,7 @@ def handler_pool():
         {"path": "/upd", "action": "set_json_value_from_request_body", "key": "flag", "value": None, "cal": ["192.0.2.1"]},
         {"path": "/upd", "action": "set_text_value_from_request_body", "key": "k", "value": None, "cal": None},
         {"path": "/upd", "action": "set_value", "key": "flag", "value": "", "cal": None},
+        {"path": "/upd", "action": "set_value", "key": "flag", "value": _cyclic_values()[1], "cal": None},
         {"path": "/upd", "action": "set_value", "key": "flag", "value": None, "cal": None},
         {"path": "/upd", "action": "set_value", "key": "k", "value": [], "cal": None},
         {"path": "/upd", "action": "set_value", "key": "", "value": {}, "cal": None},
